@@ -39,9 +39,11 @@ AsScalarClauses(r) ==
             <<"as_scalar: coarse operator", wf /\ SameOperator(r.Acb, r.Acs)>> >>
 
 \* ---- observations
+Max2(a, b) == IF a > b THEN a ELSE b
 FormOK(f, tol) == /\ f.exc = ""
                   /\ f.reported_md <= tol                      \* the solver claims convergence ...
-                  /\ f.true_md <= tol + 1000                   \* ... and the true residual agrees within a decade (truthful)
+                  /\ f.true_md <= tol + 1000                   \* ... and the true residual agrees within a decade (truthful),
+                  /\ f.reported_md <= Max2(f.true_md, -13000) + 1000   \* in both directions (above the rounding floor 1e-13)
                   /\ f.diff_md <= -6000                        \* same solution as the reference formulation
 FormsOK(r) == \A k \in 1..Len(r.forms) : FormOK(r.forms[k], r.tol_md)
 FormNames(r) == [k \in 1..Len(r.forms) |-> IF FormOK(r.forms[k], r.tol_md) THEN "" ELSE r.forms[k].name]
@@ -52,7 +54,7 @@ Clauses(r) ==
       [] r.k = "asscalar" -> AsScalarClauses(r)
       [] r.k = "asblock"  -> << <<"as_block smoother = block smoother on the block matrix", r.same \/ r.reldiff_md <= -12000>> >>
       [] r.k = "forms"    -> << <<"every block formulation solves the scalar system truthfully and all agree", Len(r.forms) >= 2 /\ FormsOK(r)>> >>
-      [] r.k = "cforms"   -> << <<"complex system and its real 2n x 2n form have the same solution", Len(r.forms) = 2 /\ FormsOK(r)>> >>
+      [] r.k = "cforms"   -> << <<"complex system (scalar / block value type) and its real form have the same solution", Len(r.forms) >= 2 /\ FormsOK(r)>> >>
       [] r.k = "mixed"    -> << <<"float preconditioner under double solver reaches the default tolerance",
                                      r.iters < r.maxiter /\ r.reported_md <= r.tol_md /\ r.true_md <= r.tol_md + 1000>> >>
       [] OTHER            -> << <<"unknown-record", FALSE>> >>
